@@ -23,6 +23,7 @@ type OOpts struct {
 	PAbsent        int  // percentage of nodes that are null or unknown (default 30)
 	NoUnknown      bool
 	KnownZeroBias  bool // known zero values ("" / 0 / false / empty list) are frequent (C08)
+	KeyPool        []string
 }
 
 type ogen struct {
@@ -191,8 +192,10 @@ func (g *ogen) value(typ attr.Type, ab *AttrB, st int, depth int, elem bool) tft
 		elems := map[string]tftypes.Value{}
 		for i := 0; i < n; i++ {
 			var key string
-			if rapid.IntRange(0, 5).Draw(g.t, "keyk") == 0 {
+			if k := rapid.IntRange(0, 6).Draw(g.t, "keyk"); k == 0 {
 				key = rapid.String().Draw(g.t, "ukey")
+			} else if k == 1 && len(g.o.KeyPool) > 0 {
+				key = rapid.SampledFrom(g.o.KeyPool).Draw(g.t, "poolkey")
 			} else {
 				key = rapid.StringMatching(`[a-z]{0,3}`).Draw(g.t, "key")
 			}
@@ -264,7 +267,10 @@ func (g *ogen) object(ot types.ObjectType, mb *MsgB, depth int) tftypes.Value {
 
 // GenObject draws a conforming Terraform object for the schema type, decoded the way the framework decodes it.
 func GenObject(t *rapid.T, schemaType attr.Type, mb *MsgB, o OOpts) (types.Object, error) {
-	g := &ogen{t: t, o: o, v: &vgen{t: t}}
+	if o.KeyPool == nil && mb != nil {
+		o.KeyPool = attrNamePool(mb)
+	}
+	g := &ogen{t: t, o: o, v: &vgen{t: t, o: VOpts{KeyPool: o.KeyPool}}}
 	ot := schemaType.(types.ObjectType)
 	tv := g.object(ot, mb, 0)
 	v, err := schemaType.ValueFromTerraform(bg, tv)
@@ -272,4 +278,31 @@ func GenObject(t *rapid.T, schemaType attr.Type, mb *MsgB, o OOpts) (types.Objec
 		return types.Object{}, fmt.Errorf("harness: framework rejected a generated value: %v", err)
 	}
 	return v.(types.Object), nil
+}
+
+var poolCache = map[*MsgB][]string{}
+
+// attrNamePool lists the attribute names of a bound message tree (sorted, de-duplicated).
+func attrNamePool(b *MsgB) []string {
+	if p, ok := poolCache[b]; ok {
+		return p
+	}
+	set := map[string]bool{}
+	var walk func(b *MsgB)
+	walk = func(b *MsgB) {
+		for _, ab := range b.Attrs {
+			set[ab.A.Name] = true
+			if ab.Sub != nil {
+				walk(ab.Sub)
+			}
+		}
+	}
+	walk(b)
+	out := make([]string, 0, len(set))
+	for k := range set {
+		out = append(out, k)
+	}
+	sort.Strings(out)
+	poolCache[b] = out
+	return out
 }
